@@ -217,9 +217,18 @@ def extreme_scale_replay(key, mode, case=""):
     NY0 = NY0 / np.linalg.norm(NY0, axis=0)
     base = (X0, Y0, NX0, NY0)
     n = KS.NPARAMS[key]
-    for scale in (1e-9, 1e-6, 1e-3, 1.0, 1e3, 1e6):
-        for shift in (0.0, 1e5):
-            X, Y, NX, NY = [np.array(a, dtype=float) for a in base]
+    # special configurations at scale 1 (data-dependent shortcuts in a kernel - "same normal, hence same face", "same coordinate" - only show up on them):
+    # equal / opposite / axis-aligned equal normals of test and trial side with the points in different planes, one equal coordinate
+    ez = np.array([0.0, 0.0, 1.0])
+    rep = (lambda v: np.array([v, v]).T) if mode == "regular" else (lambda v: np.array(v))   # noqa: E731
+    Yc = Y0.copy()
+    Yc[0, :] = X0[0] if mode == "regular" else X0[0, :]
+    specials = [("equal normals", (X0, Y0, NX0, rep(NX0))), ("opposite normals", (X0, Y0, NX0, rep(-NX0))), ("axis-aligned equal normals", (X0, Y0, ez, rep(ez))),
+                ("one equal coordinate", (X0, Yc, NX0, NY0))]
+    configs = [(scale, shift, "generic", base) for scale in (1e-9, 1e-6, 1e-3, 1.0, 1e3, 1e6) for shift in (0.0, 1e5)] + [(1.0, 0.0, nm, b) for nm, b in specials]
+    for scale, shift, label, cfg in configs:
+        if True:
+            X, Y, NX, NY = [np.array(a, dtype=float) for a in cfg]
             X, Y = X * scale + shift * scale, Y * scale + shift * scale
             kk = 1.0 / scale
             par = [] if n == 0 else [0.9 * kk] if n == 1 else [1.1 * kk, 0.0 if case == "ki==0" else 0.4 * kk]
@@ -237,7 +246,7 @@ def extreme_scale_replay(key, mode, case=""):
                 if not np.isfinite(e):
                     e = 1.0
                 if e > worst:
-                    worst, where = e, {"scale": scale, "shift": shift, "observed": [complex(out[j]).real, complex(out[j]).imag], "required": [sv.real, sv.imag]}
+                    worst, where = e, {"scale": scale, "shift": shift, "configuration": label, "observed": [complex(out[j]).real, complex(out[j]).imag], "required": [sv.real, sv.imag]}
     # far from the origin the difference y - x loses digits: relative accuracy 1e-16 * 1e5 / 1 in the distance
     return {"violates": bool(worst > 1e-8), "relative_error": worst, "where": where}
 
